@@ -11,6 +11,7 @@ mod driver;
 mod engine;
 mod histx;
 mod plans;
+mod proofx;
 mod refmodel;
 mod util;
 
@@ -32,6 +33,7 @@ pub fn extra_evidence(_prop: &str, _tier: &str) -> Option<Value> {
 fn make_engine(prop: &str) -> Option<Box<dyn Engine>> {
     match prop {
         "C01" | "C02" => Some(Box::new(histx::HistX::new())),
+        "C07" | "C08" | "C18" => Some(Box::new(proofx::ProofX::new())),
         _ => None,
     }
 }
@@ -98,17 +100,17 @@ fn main() {
             let prop = v["property"].as_str().unwrap().to_string();
             let mut engine = make_engine(&prop).expect("engine");
             let o = engine::run_guarded(engine.as_mut(), &prop, &v["case"]);
-            match o.violation {
-                Some(viol) => {
-                    println!("VIOLATION property={} replay={}", prop, args[2]);
+            let all: Vec<_> = o.violation.into_iter().chain(o.more.into_iter()).collect();
+            if all.is_empty() {
+                println!("replay: property held on this case");
+                0
+            } else {
+                println!("VIOLATION property={} replay={}", prop, args[2]);
+                for viol in all {
                     println!("  fingerprint: {}", viol.fingerprint);
                     println!("  {}", viol.msg);
-                    1
                 }
-                None => {
-                    println!("replay: property held on this case");
-                    0
-                }
+                1
             }
         }
         "plan" => {
